@@ -74,8 +74,8 @@ fault("C18.init-cond", "C18", P, "        if self.dynamic_filter:\n            i
       "        if self.dynamic_filter and self.table.sr_conflicts:\n            if self.debug:\n                prints(\"\\tInitializing", "R18.init")
 fault("C18.init-args", "C18", P, "self.dynamic_filter(context, None, None, None, None, None)", "self.dynamic_filter(context, None, None, None, None)", "R18.init")
 fault("C18.merged-shift-skip", "C18", G,
-      "                parent = next(iter(shifted_head.parents.values())).clone_with_root(head)\n                if self.dynamic_filter and not self._call_dynamic_filter(\n                    parent, head.state, to_state, SHIFT\n                ):\n                    continue\n",
-      "                parent = next(iter(shifted_head.parents.values())).clone_with_root(head)\n", "R18.dominance")
+      "                    token=head.token_ahead,\n                )\n                if self.dynamic_filter and not self._call_dynamic_filter(\n                    parent, head.state, to_state, SHIFT\n                ):\n                    continue\n            else:",
+      "                    token=head.token_ahead,\n                )\n            else:", "R18.dominance")
 fault("C18.reduce-filter-after", "C18", G,
       "        if self.dynamic_filter and not self._call_dynamic_filter(\n            parent, head.state, state, REDUCE, production, list(node_nonterm)\n        ):\n            # Action rejected by dynamic filter\n            return\n\n        active_head",
       "        active_head", "R18.dominance")
@@ -352,9 +352,12 @@ benign("C20.b-unify-in", "C20", GR, "                        if rhs_elem.fqn not
 
 # ---------------------------------------------------------------- C11
 fault("C11.bound-ne", "C11", P, "        while head.position < len(head.input_str):\n            head.position += 1", "        while head.position != len(head.input_str):\n            head.position += 1", "R11.progress")
-fault("C11.inc-after-test", "C11", P, "            head.position += 1\n            token = self._next_token(head)\n            if token:\n                head.token_ahead = token\n                return True",
-      "            token = self._next_token(head)\n            if token:\n                head.token_ahead = token\n                return True\n            head.position += 1", "R11.progress")
-fault("C11.no-lookahead-store", "C11", P, "            if token:\n                head.token_ahead = token\n                return True", "            if token:\n                return True", "R11.progress")
+fault("C11.inc-after-test", "C11", P, "            head.position += 1\n            tokens = self._next_tokens(head)\n",
+      "            tokens = self._next_tokens(head)\n            head.position += 1\n", "R11.progress")
+fault("C11.no-lookahead-store", "C11", P, "                head.token_ahead = tokens[0] if len(tokens) == 1 else None\n                return True", "                return True", "R11.progress")
+fault("C11.recovery-first-of-many", "C11", P, "                head.token_ahead = tokens[0] if len(tokens) == 1 else None\n", "                head.token_ahead = tokens[0]\n", "R11.progress")
+fault("C11.recovery-lr-fetch", "C11", P, "            tokens = self._next_tokens(head)\n            if tokens:\n                # More than one token means lexical ambiguity. Leave it to the\n                # parser to fetch the lookahead(s) at the new position.\n                head.token_ahead = tokens[0] if len(tokens) == 1 else None\n",
+      "            token = self._next_token(head)\n            if token:\n                head.token_ahead = token\n", "R10.discipline")
 fault("C11.lr-span-unconditional", "C11", P, "        if successful:\n            if debug:\n                h_print(\"Recovery \")\n            error.location.end_position = head.position",
       "        error.location.end_position = head.position\n        if successful:\n            if debug:\n                h_print(\"Recovery \")", "R11.span-end")
 fault("C11.glr-span-unconditional", "C11", G, "            if successful:\n                error.location.end_position = head.position\n", "            error.location.end_position = head.position\n            if successful:\n", "R11.span-end")
@@ -580,10 +583,19 @@ fault("C10.no-revisit-in-error-mode", "C10", G, "            if created and stat
 benign("C10.b-revisit-guard-nested", "C10", G, "            if created and state.state_id in self._states_traversed:\n                to_revisit = self._states_traversed[state.state_id].intersection(\n                    self._active_heads.keys()\n                ) - set(h.state.state_id for h in self._for_actor)\n",
        "            if state.state_id in self._states_traversed and created:\n                to_revisit = self._states_traversed[state.state_id].intersection(\n                    self._active_heads.keys()\n                ) - set(h.state.state_id for h in self._for_actor)\n")
 fault("C11.recovery-scan-current-first", "C11", P,
-      "        while head.position < len(head.input_str):\n            head.position += 1\n            token = self._next_token(head)\n            if token:\n                head.token_ahead = token\n                return True\n        return False\n",
-      "        while True:\n            token = self._next_token(head)\n            if token:\n                head.token_ahead = token\n                return True\n            if head.position >= len(head.input_str):\n                return False\n            head.position += 1\n", "R11.progress")
+      "        while head.position < len(head.input_str):\n            head.position += 1\n            tokens = self._next_tokens(head)\n            if tokens:\n                # More than one token means lexical ambiguity. Leave it to the\n                # parser to fetch the lookahead(s) at the new position.\n                head.token_ahead = tokens[0] if len(tokens) == 1 else None\n                return True\n        return False\n",
+      "        while True:\n            tokens = self._next_tokens(head)\n            if tokens:\n                head.token_ahead = tokens[0] if len(tokens) == 1 else None\n                return True\n            if head.position >= len(head.input_str):\n                return False\n            head.position += 1\n", "R11.progress")
 benign("C11.b-recovery-while-true", "C11", P,
-       "        while head.position < len(head.input_str):\n            head.position += 1\n            token = self._next_token(head)\n            if token:\n                head.token_ahead = token\n                return True\n        return False\n",
-       "        while True:\n            if head.position >= len(head.input_str):\n                return False\n            head.position += 1\n            token = self._next_token(head)\n            if token:\n                head.token_ahead = token\n                return True\n")
+       "        while head.position < len(head.input_str):\n            head.position += 1\n            tokens = self._next_tokens(head)\n            if tokens:\n                # More than one token means lexical ambiguity. Leave it to the\n                # parser to fetch the lookahead(s) at the new position.\n                head.token_ahead = tokens[0] if len(tokens) == 1 else None\n                return True\n        return False\n",
+       "        while True:\n            if head.position >= len(head.input_str):\n                return False\n            head.position += 1\n            tokens = self._next_tokens(head)\n            if tokens:\n                head.token_ahead = tokens[0] if len(tokens) == 1 else None\n                return True\n")
 fault("C11.snapshot-after-shifts", "C11", G, "            if not self._in_error_reporting:\n                self._last_shifted_heads = list(self._active_heads.values())\n                self._find_lookaheads()\n",
       "            if not self._in_error_reporting:\n                self._find_lookaheads()\n", "R10.errors-are-syntax-errors")
+fault("C08.shift-link-cloned", "C08", G,
+      "                parent = Parent(\n                    shifted_head,\n                    head,\n                    head.position,\n                    end_position,\n                    token=head.token_ahead,\n                )\n                if self.dynamic_filter and not self._call_dynamic_filter(\n                    parent, head.state, to_state, SHIFT\n                ):\n                    continue\n            else:",
+      "                parent = next(iter(shifted_head.parents.values())).clone_with_root(head)\n                if self.dynamic_filter and not self._call_dynamic_filter(\n                    parent, head.state, to_state, SHIFT\n                ):\n                    continue\n            else:", "R08.roles-glr")
+benign("C03.b-skip-empty-on-update", "C03", G, "        if prod_len == 0:\n            # Special case, empty reduction\n            self._reduce(",
+       "        if prod_len == 0 and update_parent is not None:\n            pass\n        elif prod_len == 0:\n            # Special case, empty reduction\n            self._reduce(")
+fault("C09.action-kept-when-no-grammar-action", "C09", GR, "            else:\n                symbol.action = symbol.grammar_action\n", "            elif symbol.grammar_action is not None:\n                symbol.action = symbol.grammar_action\n", "R15.actions-reset")
+fault("C15.action-kept-when-no-grammar-action", "C15", GR, "            else:\n                symbol.action = symbol.grammar_action\n", "            elif symbol.grammar_action is not None:\n                symbol.action = symbol.grammar_action\n", "R15.actions-reset")
+benign("C15.b-action-reset-first", "C15", GR, "            else:\n                symbol.action = symbol.grammar_action\n", "            else:\n                symbol.action = None\n                symbol.action = symbol.grammar_action\n")
+fault("C09.visitor-memo-front", "C09", TR, "            results.append(cache[id(next_elem)][0])", "            results.insert(0, cache[id(next_elem)][0])", "R03.visitor-order")
